@@ -74,6 +74,9 @@ def gen_plan(rng, index, tier):
             s["temps"] = [rng.choice([0.0, 25.0, 350.0, 400.0, 450.0, 475.0, 500.0]) for _ in range(4)]
             s["npts"] = rng.choice([40, 80])
         steps.append(s)
+    if rng.random() < 0.08:
+        # last step: the fuel is asked to grow by more than the dummy block can give
+        steps.append({"op": "overgrow", "asm": rng.randrange(100), "factor": rng.choice([2.5, 4.0, 9.0])})
     return {"config": cfg, "steps": steps}
 
 
@@ -304,6 +307,12 @@ class Runner:
                 self.probe("roundtrips")
             self.sig.append((op, len(blocks)))
             return True
+        if op == "overgrow":
+            comps = [c for bi, c in led.solids if bi < led.nblocks - 1]
+            ch.performPrescribedAxialExpansion(a, comps, [st["factor"]] * len(comps), setFuel=True)
+            self.check(k, st, a, before)  # (accepted: then it must be a valid assembly)
+            self.probe("overgrow_accepted")
+            return True
         if op == "thermal":
             n = st["npts"]
             H = led.height0
@@ -344,6 +353,26 @@ class Runner:
             return True
         raise RuntimeError(op)
 
+    def after_refusal(self, k, st):
+        """A refused expansion must leave the assembly as it was (or at least a valid assembly)."""
+        a = self.asms[st["asm"] % len(self.asms)]
+        led = self.ledgers[id(a)]
+        hs = [float(b.getHeight()) for b in a]
+        total = sum(hs)
+        bad = []
+        if not rel(total, led.height0):
+            bad.append(f"the block heights add up to {total}, the assembly is {led.height0} high")
+        if any(h <= 0.0 for h in hs):
+            bad.append(f"block heights {hs}")
+        tops = 0.0
+        for b in a:
+            if not rel(float(b.p.zbottom), tops):
+                bad.append(f"block bottoms/tops no longer line up ({float(b.p.zbottom)} vs {tops})")
+                break
+            tops = float(b.p.ztop)
+        if bad:
+            self.fail("C12.refusal", f"step {k} ({st['op']}): armi refused the expansion (negative height) but left the assembly changed: " + "; ".join(bad), what="not-atomic")
+
     def restored(self, k, st, led, before):
         now = led.state()
         for name in ("heights", "ztop"):
@@ -374,6 +403,7 @@ def execute(plan):
                 # assembly is left half-changed, so the history ends here
                 run.probe("refused_negative_height")
                 log.add("step", k, st["op"], "refused")
+                run.after_refusal(k, st)
                 break
             log.add("step", k, st["op"], bool(did))
             if did:
